@@ -5,7 +5,7 @@
 # without the change. Leaves the worktree clean. Prints one CONFIRM line.
 set -u
 id="$1"; m="$2"; crate="$3"
-wt=/tmp/seed/$id/wt; out=/tmp/seed/$id/out/$m
+root=${SEEDROOT:-/tmp/seed}; wt=$root/$id/wt; out=$root/$id/out/$m
 cd "$wt" || exit 9
 git checkout -q -- . ; rm -rf $crate/tests/seed_demo.rs
 git apply --whitespace=nowarn "$out/patch.diff" || { echo "CONFIRM $id/$m apply=FAIL"; exit 1; }
